@@ -50,18 +50,27 @@ def build_group(g):
 _counter = [0]
 
 
-def build_class(spec, extra_attrs=None, handlers=None):
+def build_class(spec, extra_attrs=None, handlers=None, base_cls=None, base_defs=None):
     """returns (cls, defs) where defs[group_attr] = Group definition (for attaching handlers).
     handlers: optional callable(defs) -> dict of extra class attributes (methods decorated with @on)
               applied to the most derived class."""
     depth = spec.get("depth", 1)
-    defs = {g["attr"]: build_group(g) for g in spec["groups"]}
+    # groups marked inherited=True are declared by base_cls (a class built for another device of the
+    # deployment); their definition objects are the base's
+    defs = {}
+    for g in spec["groups"]:
+        if g.get("inherited"):
+            defs[g["attr"]] = base_defs[g["attr"]]
+        else:
+            defs[g["attr"]] = build_group(g)
     _counter[0] += 1
-    base = Driver
+    base = base_cls or Driver
     cls = None
     for level in range(depth):
         dct = {}
         for g in spec["groups"]:
+            if g.get("inherited"):
+                continue
             if min(g.get("level", depth - 1), depth - 1) == level:
                 dct[g["attr"]] = defs[g["attr"]]
         if level == depth - 1:
